@@ -26,7 +26,9 @@ RULE = (
     "{0, 0.3ns, 1ns, 2.5ns, 0.1+0.2, 0.7, 1ms, 1s, 1e6s}. Per process the (resume instant, received value) log, hook "
     "firings (count, instant, time argument), finish instants and side-effect deliveries are compared with the "
     "reference interpreter. Non-trivial: the executed script awaited an already-resolved future, or a nested combinator, "
-    "or had hooks on a process that parked, or resolved a future twice. Distinct by hash of the program."
+    "or had hooks on a process that parked, or resolved a future twice. Family `wiring`: 2-5 futures, each yielded "
+    "directly by at most one process and at the same time an input of any number of (nested) combinators awaited by "
+    "other processes, resolved in random order (same instant, twice, before anyone waits, never). Distinct by hash of the program."
 )
 ASSUMPTIONS = [
     "a resumption (after a delay or a resolve) is an event created at that instant and ordered by creation among same-instant events (C01)",
@@ -137,7 +139,7 @@ def run(case: dict) -> Result:
         compare_logs(res, rr.log, ref, end_ns, component="Simulation")
 
     st = ref.stats
-    for k in ("await_already_resolved", "nested_combinator_awaits", "combinator_awaits", "hooks_on_parked_process", "second_resolves"):
+    for k in ("await_already_resolved", "nested_combinator_awaits", "combinator_awaits", "hooks_on_parked_process", "second_resolves", "resolve_with_waiter_and_combinator"):
         if st.get(k):
             res.count("cases_with_" + k)
     res.nontrivial = bool(
@@ -185,5 +187,67 @@ def _stmt_kind(stmt):
     return "after-" + stmt["op"]
 
 
-FAMILIES = {"scripts": Family("scripts", gen, run, shrink=shrink_program, case_timeout=30.0)}
-BUDGET = {"quick": {"scripts": 2500}, "thorough": {"scripts": 100000}}
+def _gen_wiring(rng: random.Random, tier: str) -> dict:
+    """Waiter / resolver wiring: a handful of futures, each yielded directly by at most one process and at the
+    same time an input of any number of (nested) combinators awaited by other processes (worker + watchdog +
+    auditor on one `done` future); a resolver resolves them in a random order, some at one instant, some twice,
+    some before anybody waits, some never."""
+    for _attempt in range(30):
+        n_fut = rng.randrange(2, 6)
+        futs = [f"f{i}" for i in range(n_fut)]
+        n_wait = rng.randrange(2, 6)
+        directs = rng.sample(futs, min(n_fut, rng.randrange(1, n_wait + 1)))
+
+        def tree(depth=0):
+            if depth >= 2 or (depth > 0 and rng.random() < 0.6):
+                return rng.choice(futs)
+            k = rng.randrange(2, 4)
+            return {rng.choice(["any", "all"]): [tree(depth + 1) for _ in range(k)]}
+
+        table = {}
+        for w in range(n_wait):
+            body = []
+            if rng.random() < 0.6:
+                body.append({"op": "delay", "d": rng.choice([0.0, 1e-9, 1e-3, 0.01]), "side": None, "side_style": "none"})
+            body.append({"op": "await", "f": directs[w] if w < len(directs) else tree()})
+            if rng.random() < 0.3:
+                body.append({"op": "await", "f": tree()})
+            if rng.random() < 0.3:
+                body.append({"op": "delay", "d": rng.choice([0.0, 1e-9, 1e-3]), "side": None, "side_style": "none"})
+            table[f"{w}:T0"] = {"kind": "gen", "body": body, "ret": [], "style": "list", "wrapped": rng.random() < 0.15}
+        # resolvers: entity n_wait + j, one action per event type
+        value = [200]
+        slots = []
+        n_res = rng.randrange(1, 3)
+        for j in range(n_res):
+            for t in ("T1", "T2", "T3", "T4"):
+                value[0] += 1
+                names = rng.sample(futs, rng.randrange(1, min(3, n_fut) + 1))
+                table[f"{n_wait + j}:{t}"] = {
+                    "kind": "emit",
+                    "events": [],
+                    "cancel": [],
+                    "resolve": [[f, value[0] * 10 + i] for i, f in enumerate(names)],
+                    "style": "list",
+                }
+                slots.append((n_wait + j, t))
+        start = rng.choice([0, 1000, 10**9])
+        pre = []
+        for w in range(n_wait):
+            pre.append({"t": start + rng.choice([0, 0, 1, 1000, 10**6]), "dt": 0, "ent": w, "type": "T0", "daemon": False, "handle": None, "phase": "after", "cancel_pre": False})
+        times = [start + x for x in rng.sample([0, 1, 1000, 10**6, 10**6 + 1, 2 * 10**7, 10**9, 3 * 10**9], rng.randrange(1, 4))]
+        for ent, t in rng.sample(slots, rng.randrange(1, len(slots) + 1)):
+            pre.append({"t": rng.choice(times), "dt": 0, "ent": ent, "type": t, "daemon": False, "handle": None, "phase": "after", "cancel_pre": False})
+        order = list(range(len(pre)))
+        rng.shuffle(order)
+        prog = {"n_ent": n_wait + n_res, "end_ns": None, "pre": pre, "sched_order": order, "table": table}
+        if program_is_valid(prog):
+            return prog
+    return prog
+
+
+FAMILIES = {
+    "scripts": Family("scripts", gen, run, shrink=shrink_program, case_timeout=30.0),
+    "wiring": Family("wiring", _gen_wiring, run, shrink=shrink_program, case_timeout=30.0),
+}
+BUDGET = {"quick": {"scripts": 2500, "wiring": 1500}, "thorough": {"scripts": 100000, "wiring": 60000}}
